@@ -240,7 +240,9 @@ impl Exec {
             }
             State::Decay => {
                 if st0 == State::Attack {
-                    ctx.check(1, "attack_ends_at_one", v == 1.0, || format!("tick leaving attack gave {:e}, not 1.0", v));
+                    ctx.check(1, "attack_ends_at_one", v == 1.0 || vp == 1.0, || {
+                        format!("attack ended without ever outputting exactly 1.0 (last attack tick {:e}, next tick {:e})", vp, v)
+                    });
                 } else if !self.s_changed {
                     ctx.check(1, "decay_monotone", v <= vp, || format!("decay went up: {:e} -> {:e}", vp, v));
                 }
@@ -345,7 +347,8 @@ impl Engine for AdsrEngine {
         Exec {
             fs: cfg.fs,
             a,
-            par: [Some(0.001), Some(0.001), Some(1.0), Some(0.001)],
+            // the power-on settings are not part of any property: unknown until the panel task has set them
+            par: [None, None, None, None],
             st: State::AtRest,
             l0_on: 0.0,
             l0_off: 0.0,
@@ -515,7 +518,7 @@ impl Engine for AdsrEngine {
                             };
                             real!(ex.a.set_input(inp));
                         }
-                        None => ex.par[w] = Some(if w == 2 { 1.0 } else { 0.001 }),
+                        None => {}
                     }
                 }
                 let st1 = ex.a.verif_state();
@@ -679,7 +682,7 @@ fn random_run(rng: &mut Rng, prof: &Profile, sink: &mut Sink<AdsrEngine>) {
     let mut t = sink.begin(Cfg { fs });
     // initial panel settings
     for w in 0..4u8 {
-        if rng.chance(0.85) {
+        {
             let x = if w == 2 { gen_level(rng, glitch) } else { gen_time(rng, fs, n_target, glitch) };
             t.push(Ev::Set(w, x.to_bits()));
         }
@@ -855,6 +858,10 @@ fn chaos_run(rng: &mut Rng, _prof: &Profile, sink: &mut Sink<AdsrEngine>) {
     let budget: u64 = if big { 12_000_000 } else { 40_000 };
     let mut t = sink.begin(Cfg { fs });
     let max_events = 30 + rng.usize(120);
+    for w in 0..4u8 {
+        let x = finite_extreme(rng);
+        t.push(Ev::Set(w, x.to_bits()));
+    }
     while !t.dead && t.ctx.steps < budget && t.evs.len() < max_events {
         match rng.weighted(&[30, 14, 12, 30, 2, 12]) {
             0 => {
